@@ -212,7 +212,7 @@ set_option maxHeartbeats 1600000 in
 theorem g2_step (cfg : Cfg) (x x' : X) (l : Label) (h : G2 cfg x) (hs : step cfg x l = some x') : G2 cfg x' := by
   cases l with
   | submit j f d => exact g2_submit cfg x x' j f d h hs
-  | subStart | subDecide _ | onQueued | subEnd | registerAbort _ | abortBegin _ | abortEnd _ | cleaned _
+  | subStart | subDecide _ | onQueued | subEnd | registerAbort _ | mainFail _ | abortBegin _ | abortEnd _ | cleaned _
   | eventSet _ | cbLock _ | cbDone _ | annEnd _ =>
     obtain ⟨kb, st, ns, fs, fd, dd, dk, a0, a1, a2⟩ := h
     simp only [step] at hs
